@@ -140,7 +140,7 @@ func watchRunCase(rng *rand.Rand) Case {
 	defer os.RemoveAll(root)
 	os.MkdirAll(filepath.Join(root, "src"), 0755)
 	os.MkdirAll(filepath.Join(root, "other"), 0755)
-	files := map[string]string{"watched": "src/a.go", "watched2": "src/b.go", "excluded": "src/skip.go", "unrelated": "other/c.txt"}
+	files := map[string]string{"watched": "src/a.go", "watched2": "src/b.go", "excluded": "src/skip.go", "unrelated": "other/c.txt", "doomed": "src/d.go", "doomed2": "src/e.go", "doomed3": "src/f.go"}
 	for _, f := range files {
 		os.WriteFile(filepath.Join(root, f), []byte("x"), 0644)
 	}
@@ -193,6 +193,11 @@ watchers:
 	ops = append(ops, op{"rename", "watched2"}, op{"write", "watched"}, op{"chmod", "watched"})
 	// ... and when the file comes back to its observed path, events on it are served again
 	ops = append(ops, op{"renameback", "watched2"}, op{"write", "watched2"})
+	// a subscribed event on an observed file that is gone by the time the (slow) serve loop gets to it is still an
+	// event that happened: the task runs for it; and the watcher serves what comes afterwards
+	// (three times, 0 / 350 / 700 ms later in the loop's one-second polling period: whatever the phase, at least two
+	// of the files are gone when their event is taken from the queue)
+	ops = append(ops, op{"write-then-remove", "doomed"}, op{"write-then-remove", "doomed2"}, op{"write-then-remove", "doomed3"}, op{"write", "watched"})
 	var want []string
 	var replay []string
 	for _, o := range ops {
@@ -202,6 +207,13 @@ watchers:
 			f, _ := os.OpenFile(p, os.O_APPEND|os.O_WRONLY, 0644)
 			f.WriteString("more")
 			f.Close()
+		case "write-then-remove":
+			time.Sleep(map[string]time.Duration{"doomed": 0, "doomed2": 350 * time.Millisecond, "doomed3": 700 * time.Millisecond}[o.file])
+			f, _ := os.OpenFile(p, os.O_APPEND|os.O_WRONLY, 0644)
+			f.WriteString("more")
+			f.Close()
+			time.Sleep(300 * time.Millisecond)
+			os.Remove(p)
 		case "chmod":
 			os.Chmod(p, 0600+os.FileMode(len(replay)%2)*0040)
 		case "rename":
@@ -213,6 +225,9 @@ watchers:
 		if (o.file == "watched" || o.file == "watched2") && o.kind != "rename" && o.kind != "renameback" {
 			want = append(want, fmt.Sprintf("RAN %s %s", o.kind, p))
 		}
+		if o.kind == "write-then-remove" {
+			want = append(want, fmt.Sprintf("RAN write %s", p))
+		}
 		// the serve loop polls once a second and handles one event per iteration
 		time.Sleep(2500 * time.Millisecond)
 	}
@@ -222,6 +237,9 @@ watchers:
 	}
 	cs.Replay = "watch src/*.go minus src/skip.go, events write+chmod; operations: " + strings.Join(replay, ", ")
 	cs.Impl = strings.Join(got, " | ")
+	if os.Getenv("VERIF_DEBUG_C20") != "" {
+		fmt.Fprintln(os.Stderr, "DEBUG inotify got:", cs.Impl, "\nwant:", strings.Join(want, " | "))
+	}
 	gs := append([]string{}, got...)
 	ws := append([]string{}, want...)
 	sort.Strings(gs)
